@@ -158,18 +158,38 @@ Print Assumptions C13_exclude_independent_alias_refuted.
 
 (** ** Inclusion *)
 
-(** include paths made of plain string keys (no quote, no bracket), inputs whose string keys are plain:
-    the substring tests of _skip_this and the "{}['{}']" spelling of _skip_this_key coincide with the prefix
-    order on key sequences, and the filtered run is exactly the entries at, below or above an included path *)
+(** include paths made of list indexes and plain string keys (no quote, no bracket), inputs whose string keys
+    are plain: the substring tests of _skip_this and the "{}['{}']" spelling of _skip_this_key coincide with the
+    prefix order on key sequences, and the filtered run is exactly the entries at, below or above an included
+    path - in positional mode, and in the default alignment mode when the include paths consist of dictionary
+    keys only.  [nodigit_key]: when some include path goes through a list index, no str key of an include path
+    may be a digit string (the int key 1 is spelled root['1'] by the key filter and root[1] by the printer). *)
 Theorem C13_include_is_filter_partial :
   forall hatom udiff ops (c : cfg) (Q : list path) (t1 t2 : value),
-  Q <> [] -> Forall (fun q => forallb str_key q = true) Q ->
-  zip c = true -> thr_num c = 0 -> wf t2 = true ->
+  Q <> [] -> Forall (fun q => forallb qkey q = true) Q ->
+  Forall (fun q => forallb str_key q = true) Q \/ Forall (fun q => forallb nodigit_key q = true) Q ->
+  zip c = true \/ Forall (fun q => forallb str_key q = true) Q ->
+  thr_num c = 0 -> wf t2 = true ->
   keys_all ok_atom t1 = true -> keys_all ok_atom t2 = true ->
   fst (run_filtered hatom udiff ops no_skip [] (map render Q) c t1 t2) =
   filter (fun e => related Q (ep1 e)) (fst (run_diff hatom udiff ops no_skip no_skip c t1 t2)).
 Proof. intros. apply include_filter; assumption. Qed.
 Print Assumptions C13_include_is_filter_partial.
+
+(** the mode guard cannot be dropped: default alignment, include path ending in an index of a list of atoms *)
+Theorem C13_include_default_index_refuted :
+  exists hatom udiff ops (c : cfg) (Q : list path) (t1 t2 : value),
+  Q <> [] /\ Forall (fun q => forallb qkey q = true) Q /\ zip c = false /\ thr_num c = 0 /\ wf t2 = true /\
+  keys_all ok_atom t1 = true /\ keys_all ok_atom t2 = true /\
+  fst (run_filtered hatom udiff ops no_skip [] (map render Q) c t1 t2) <>
+  filter (fun e => related Q (ep1 e)) (fst (run_diff hatom udiff ops no_skip no_skip c t1 t2)).
+Proof.
+  exists h0, u0, w2_ops, default0, w9_Q, w2_t1, w2_t2.
+  destruct include_default_index_refuted as (_ & _ & _ & _ & A & B).
+  split; [discriminate|]. split; [repeat constructor|]. repeat (split; [reflexivity|]).
+  intros H. rewrite H in A. rewrite A in B. discriminate B.
+Qed.
+Print Assumptions C13_include_default_index_refuted.
 
 (** K10: a non-str dictionary key on the include path: nothing is selected *)
 Theorem C13_include_nonstring_refuted :
@@ -210,7 +230,8 @@ Theorem C13_coherent_filter :
   (forall p a, okp p = true -> okk a = true -> R p = true ->
      R (snoc p (PKey a)) = false -> kf p a = true \/ sk (snoc p (PKey a)) = true) ->
   (forall p i, okp p = true -> R p = true -> R (snoc p (PIdx i)) = false -> sk (snoc p (PIdx i)) = true) ->
-  zip c = true \/ (forall p i, R p = true -> R (snoc p (PIdx i)) = true) ->
+  zip c = true \/ (forall p, R p = true ->
+     (forall i, R (snoc p (PIdx i)) = true) \/ (forall i, R (snoc p (PIdx i)) = false)) ->
   thr_num c = 0 \/ (forall p a, kf p a = false) ->
   (forall k1 k2 p, dict_shortcut E c k1 k2 p = dict_shortcut E' c k1 k2 p) ->
   forall t1 t2, wf t2 = true -> keys_all okk t1 = true -> keys_all okk t2 = true -> okp [] = true -> R [] = true ->
